@@ -8,6 +8,9 @@ scores   : data designs x noise x kernel x mean x hyper-parameter lattice; 50-di
 select   : automatic selection with optimizer="bfgs": the module global ``random`` of
            inference.gp.regression is replaced by a script which places the random starts on every
            element of ({0, 1/2, 1-}^p)^(starts-1); result in hp_bounds and score >= score(centre).
+select_nnf: the same evaluator and oracle on near-noise-free smooth data (tiny y_err, near-duplicate / clustered inputs,
+           estimated and wide user-supplied bounds), where L-BFGS-B legitimately ends some runs abnormally (ill-conditioned
+           K + S, numerically noisy score); the termination flags are observed (pass-through) for the tags only.
 diffev   : optimizer="diffev" under numpy.random.seed(VERIF_SEED): result in hp_bounds only.
 """
 import itertools
@@ -825,6 +828,41 @@ def run(ck):
             add_product(des, kspec, mspec, cv, 2)
     ck.run_cases("select", sel, chunk=1)
 
+    # ---------------------------------------------------------------- automatic selection on near-noise-free smooth data
+    # (designs on which L-BFGS-B legitimately terminates abnormally from some starts; same oracle)
+    sel_main, sel = sel, []
+    levels = [1e-4, 1e-5, 1e-6] if quick else [1e-3, 1e-4, 1e-5, 1e-6]
+    nnf_designs = 0
+    for ni, n in enumerate((8, 12, 15)):
+        for ki, kind in enumerate(SMOOTH_KINDS):
+            for li, level in enumerate(levels):
+                for cv in (False, True):
+                    for bi, ub in enumerate((None, "wide")):
+                        if quick and (ni + ki + li + int(cv) + bi + seed) % 4:
+                            continue  # a Latin quarter: every pair of axis values still occurs
+                        des = make_smooth_design(n, 1, kind, seed, level)
+                        kw = {"user_bounds": ub} if ub else {}
+                        add_product(des, "SE", "C", cv, 2, **kw)
+                        nnf_designs += 1
+    if not quick:
+        # p = 4 (one scripted start, 81 placements): other kernel / mean / two input dimensions
+        for i, (kspec, mspec, d) in enumerate([("RQ", "C", 1), ("SE", "L", 1), (["+", "SE", "WN"], "C", 1), ("SE", "C", 2)]):
+            for ki, kind in enumerate(SMOOTH_KINDS):
+                for li, level in enumerate((1e-5, 1e-6)):
+                    for cv in (False, True):
+                        if (i + ki + li + int(cv) + seed) % 2:
+                            continue
+                        add_product(make_smooth_design(12, d, kind, seed, level), kspec, mspec, cv, 2)
+                        nnf_designs += 1
+        # p = 3 with the default number of starts (3 scripted + centre): every multiset of placements
+        for i, (n, kind, level) in enumerate([(12, "regular", 1e-5), (8, "neardup", 1e-6)]):
+            for cv in (False, True):
+                if (i + int(cv) + seed) % 2 == 0:
+                    add_multisets(make_smooth_design(n, 1, kind, seed, level), "SE", "C", cv, None)
+                    nnf_designs += 1
+    ck.run_cases("select_nnf", sel, chunk=1)
+    sel_nnf, sel = sel, sel_main
+
     # ---------------------------------------------------------------- differential evolution: bounds only
     dv = []
     dlist = [("SE", "C", d5e), ("RQ", "C", d5e), (["+", "SE", "WN"], "L", d5n), ("SE", "C", d52)]
@@ -841,13 +879,21 @@ def run(ck):
         "(quick: Latin thirds/ninths of the hyper-parameter product); distinct = (configuration, decade of cond(K+S)). select: every tuple of "
         "scripted start placements from {0,1/2,1-}^p: p=3 with the default 4 starts - thorough the full ordered product 27^3 (one design; multisets on two more), quick all 3654 "
         "multisets plus all orders of every 29th for one criterion and the product 27^2 with two scripted starts for the other; p=4 - one scripted start (81), two (6561, thorough), default 5 starts on the near-diagonal; "
-        "p=5..7 one scripted start (3^p); distinct = configuration x number of distinct optima reached. diffev: fixed numpy seed, bounds only."
+        "p=5..7 one scripted start (3^p); distinct = configuration x number of distinct optima reached. select_nnf: the same oracle on near-noise-free smooth data "
+        "(y a smooth function of position + a wiggle of the size of the stated errors): n in 8,12,15 x inputs {regular, irregular, pairs 1e-3 of the range apart, pairs 0.013 apart} x "
+        "error level {1e-3 (thorough), 1e-4, 1e-5, 1e-6} x both criteria x bounds {estimated, user-supplied wide box: 3 e-foldings / a factor 100..1000 either side} with every placement of one "
+        "scripted start (27) (quick: a Latin quarter of the design product); thorough adds p=4 configurations (RQ, linear mean, SE+WN, d=2; 81 placements) and every multiset of three "
+        "scripted starts on two designs; the termination flags of the optimiser runs are observed (pass-through) only to tag the designs on which a run ended abnormally / the best run ended "
+        "abnormally while another ended normally. diffev: fixed numpy seed, bounds only."
     )
     ck.assume("continuous inputs are represented by the listed finite lattices; n <= 8 (50-digit reference); points with cond(K+S) > 1e10 are skipped and counted")
     ck.assume("the diagonal stabiliser of smooth kernels is accepted as any relative inflation in [0,1e-10] of the kernel diagonal (measured from the model's data covariance)")
+    ck.assume("near-noise-free selection designs are limited to stated errors of 1e-3..1e-6 of the data range, n <= 15, one smooth target function and the listed input layouts; an exception escaping from the constructor on such data is reported as a violation")
     ck.assume("random BFGS starts are enumerated on the alphabet {0,1/2,1-}^p only; scipy's differential_evolution consumes its own random stream and is only checked for bounds membership under numpy.random.seed(VERIF_SEED)")
     ck.assume("n_processes > 1 (multiprocessing pool inside the constructor) is not exercised: the evaluators already run in daemonic pool workers")
     ck.assume("gradients are required to an absolute floor of 1e3 eps (score magnitude) per natural parameter unit in addition to the first-order rounding bound")
     ck.extra["score_lattice_points"] = npoints
     ck.extra["select_blocks"] = len(sel)
     ck.extra["select_start_tuples"] = ntuples[0]
+    ck.extra["select_nnf_blocks"] = len(sel_nnf)
+    ck.extra["select_nnf_designs"] = nnf_designs
